@@ -6,6 +6,8 @@ package main
 import (
 	"fmt"
 	"os"
+
+	"verif/h/lockx"
 )
 
 func main() {
@@ -24,6 +26,8 @@ func main() {
 		runWorker(os.Args[2])
 	case "replay":
 		os.Exit(runReplay(os.Args[2]))
+	case "lockhold":
+		os.Exit(lockx.Hold(os.Args[2], os.Args[3]))
 	default:
 		fmt.Fprintln(os.Stderr, "unknown command", os.Args[1])
 		os.Exit(2)
